@@ -126,6 +126,8 @@ def check_C03(tier, seed):
     drive_and_judge(rep, "C03", rc + F.deep_use_cases(push=False) + F.deep_use_cases(push=True) + F.many_function_cases() + [{"id": "twin-groups", "family": "groups-with-equal-resources", "S": F.twin_groups_shader(), "opts": F.opts()}]
                     + [{"id": "ifchain-long-%d" % i, "family": "else-if-chain", "S": F.nested("if_chain_long", 1, ret=bool(i)), "opts": F.opts()} for i in (0, 1)]
                     + [{"id": "ifsplit-%d" % i, "family": "calls-in-both-arms", "S": F.if_split_shader(ra, rb_), "opts": F.opts()} for i, (ra, rb_) in enumerate([(False, False), (True, False), (False, True), (True, True)])], "random", keep)
+    # one thread that has already done 65 000 entry-point walks (16-bit stamps, generation counters)
+    drive_and_judge(rep, "C03", F.wear_history(), "wear", keep)
     # a subset is compiled against the recording device: the visibility VALUES the generated code passes, not their tokens
     sub = cases_from_S(r2.cases[::(60 if quick else 6)], "ctxr", "stages-ctx-recorded", vary_validate=False) + [dict(c, id="r" + c["id"], family="stages-random-recorded") for c in rc[:(80 if quick else 1500)]]
     compiled_and_judge(rep, "C03", sub, "recorded", "shim", {"pipeline_layout"}, keep=["groups"], enforce="C03R")
@@ -300,6 +302,13 @@ def check_C17(tier, seed):
         drive_and_judge(rep, "C17", gone, "deleted-cwd", ["mods"])
     finally:
         _E.VDRIVER_ENV.pop("VERIF_DELETED_CWD", None)
+    # the same kinds of sources under the environment switches of the graphics stack (wgpu / naga read WGPU_* variables at run time; the
+    # generator's validation is decided by its options alone)
+    gpu_envs = [{"WGPU_VALIDATION": "0"}, {"WGPU_VALIDATION": "1", "WGPU_DEBUG": "1"}, {"WGPU_VALIDATION": "0", "WGPU_BACKEND": "gl", "WGPU_ADAPTER_NAME": "none"},
+                {"WGPU_VALIDATION": "", "NAGA_VALIDATION": "0", "WGPU_GPU_BASED_VALIDATION": "0"}, {"RUST_LOG": "trace", "RUST_BACKTRACE": "full", "WGPU_TRACE": "trace_dir"}]
+    sel = [c for c in cases if c["family"].startswith(("semantic-", "capability-", "valid-odd"))][:(250 if quick else 2500)]
+    envd = [dict(c, id="env%d-%s" % (i % len(gpu_envs), c["id"]), env=gpu_envs[i % len(gpu_envs)]) for i, c in enumerate(sel)]
+    drive_and_judge(rep, "C17", envd, "gpu-env", ["mods"])
     return finish(rep)
 
 
